@@ -11,17 +11,24 @@ def main():
     patch = os.path.join(d, 'patch.diff')
     meta = json.load(open(os.path.join(d, 'meta.json')))
     props = args[1:] or [meta['property']]
-    assert subprocess.run(['git', '-C', '/repo', 'status', '--porcelain', '--untracked-files=no'], capture_output=True, text=True).stdout == '', '/repo is dirty'
-    subprocess.run(['git', '-C', '/repo', 'apply', patch], check=True)
+    # --worktree=<dir>: development mode, apply to a scratch worktree and point the harness at it (PMV_REPO);
+    # default: apply to /repo itself (the confirmation mode the brief asks for) and undo straight afterwards
+    wt = [a.split('=', 1)[1] for a in sys.argv if a.startswith('--worktree=')]
+    repo = wt[0] if wt else '/repo'
+    env = dict(os.environ, PMV_REPO=repo) if wt else dict(os.environ)
+    if wt:
+        subprocess.run(['git', '-C', repo, 'reset', '-q', '--hard', 'main'], check=True)
+    assert subprocess.run(['git', '-C', repo, 'status', '--porcelain', '--untracked-files=no'], capture_output=True, text=True).stdout == '', repo + ' is dirty'
+    subprocess.run(['git', '-C', repo, 'apply', patch], check=True)
     res = {}
     try:
         for p in props:
-            r = subprocess.run([os.path.join(VERIF, 'check'), p, '--tier', tier], cwd=VERIF, capture_output=True, text=True)
+            r = subprocess.run([os.path.join(VERIF, 'check'), p, '--tier', tier], cwd=VERIF, capture_output=True, text=True, env=env)
             viol = [l for l in r.stdout.splitlines() if l.startswith('VIOLATION')]
             res[p] = {'exit': r.returncode, 'violations': viol[:5], 'tail': r.stdout.splitlines()[-1:] }
             print(p, 'exit', r.returncode, 'CAUGHT' if r.returncode == 1 and viol else 'MISSED', viol[:3], r.stdout.splitlines()[-1:])
     finally:
-        subprocess.run(['git', '-C', '/repo', 'checkout', '--', '.'], check=True)
+        subprocess.run(['git', '-C', repo, 'checkout', '--', '.'], check=True)
     return res
 
 if __name__ == '__main__':
